@@ -287,6 +287,19 @@ func (m *multiWidthIndex) Load(items []Record) error {
 		idxs[len(digest)] = append(idx, digestRecord{digest, item.Offset})
 	}
 
+	// Load inserts: records that an earlier Load (or Unmarshal) put into a bucket of the same
+	// width stay in the index.
+	for width := range idxs {
+		s, ok := (*m)[uint32(width)+8]
+		if !ok {
+			continue
+		}
+		for i := 0; i < int(s.len); i++ {
+			rec := s.index[i*int(s.width) : (i+1)*int(s.width)]
+			idxs[width] = append(idxs[width], digestRecord{rec[:width], binary.LittleEndian.Uint64(rec[width:])})
+		}
+	}
+
 	// Sort each list. then write to compact form.
 	for width, lst := range idxs {
 		sort.Sort(recordSet(lst))
